@@ -11,10 +11,10 @@ VARIANTS = [
     SV("guard-inverted", T, "Dynamo0p3OMPLoopTrans.validate",
        "if node.loop_type != 'colour' and node.has_inc_arg():\n    raise TransformationError(f'Error in {self.name} transformation. The kernel has an argument with INC access. Colouring is required.')",
        "if node.loop_type == 'colour' and node.has_inc_arg():\n    raise TransformationError('x')", "fires:C23.R1"),
-    SV("exempt-continuous", T, "DynamoOMPParallelLoopTrans.validate",
-       "if node.field_space.orig_name not in const.VALID_DISCONTINUOUS_NAMES:\n    if node.loop_type != 'colour' and node.has_inc_arg():\n        raise TransformationError(f'Error in {self.name} transformation. The kernel has an argument with INC access. Colouring is required.')",
-       "if node.field_space.orig_name not in const.CONTINUOUS_FUNCTION_SPACES:\n    if node.loop_type != 'colour' and node.has_inc_arg():\n        raise TransformationError('x')",
-       "fires:C23.R1"),
+    V("exempt-discontinuous-loop-space", T,
+      "        if node.loop_type != 'colour' and node.has_inc_arg():\n            raise TransformationError(\n                f\"Error in {self.name} transformation. The kernel has an \"\n                f\"argument with INC access. Colouring is required.\")\n        # As this is a domain-specific loop",
+      "        if node.field_space.orig_name not in LFRicConstants().VALID_DISCONTINUOUS_NAMES:\n            if node.loop_type != 'colour' and node.has_inc_arg():\n                raise TransformationError(\"x\")\n        # As this is a domain-specific loop",
+      "fires:C23.R"),
     SV("uncoloured-always-independent", L, "LFRicLoop.independent_iterations",
        "if self.has_inc_arg():\n    dtools._add_message(f\"Kernel '{self.kernel.name}' performs an INC update\", DTCode.ERROR_WRITE_WRITE_RACE)\n    return False",
        "", "fires:C23.R1"),
